@@ -123,6 +123,8 @@ def parts(tier):
                                                      "merge": ["default", "p50n2"], "dkf": True}, shards=16, timeout=600, path_timeout=30),
         CH("inputs_grammar_depth1_pairs", "vflib.props.c08:scen_inputs", {"kinds": "GRAMMAR1", "samples": 2, "keys": ["a"], "symbolic_leaves": False},
            shards=16, timeout=700, path_timeout=30),
+        CH("inputs_grammar_depth2_pairs", "vflib.props.c08:scen_inputs", {"kinds": "GRAMMAR2", "samples": 2, "keys": ["a"], "symbolic_leaves": False},
+           shards=16, timeout=900, path_timeout=30),
         CH("inputs3", "vflib.props.c08:scen_inputs", {"kinds": "KINDS_SMALL", "samples": 3, "keys": ["a"], "symbolic_leaves": False},
            shards=16, timeout=600, path_timeout=30),
         CH("inputs_nested", "vflib.props.c08:scen_inputs", {"kinds": "KINDS_NEST", "samples": 2, "keys": ["a", "b"], "symbolic_leaves": False,
